@@ -60,6 +60,8 @@ def convert(dump, cfgpath, name, origin):
         elif nm == "StopBegin":
             k = ctx["kind"]
             step = {"do": "stop", "i": i} if k == "stop" else {"do": "stopctx", "i": i, "del": k == "ctxdel"}
+            if k == "ctxabort":      # a call whose context is already cancelled: returns an error while the goroutines still run
+                step["ctx_us"] = -1
         elif nm in ("StoreApply", "StoreFail", "LoseAck", "PartTimeout"):
             s = ctx["s"]
             t = prev["th"][ctx["i"]][s]
@@ -91,6 +93,10 @@ def convert(dump, cfgpath, name, origin):
             step = {"do": "drop", "i": i}
         elif nm == "OutsideDelete":
             step = {"do": "out_del"}
+        elif nm == "OutsidePut":
+            k = ctx["kind"]
+            step = {"do": "out_put", "cls": {"other": "other", "as": "as:" + ids_up.get(ctx["id"], str(ctx["id"])),
+                                             "malformed": "notjson", "empty": "empty"}[k]}
         elif nm == "Partition":
             step = {"do": "partition", "i": i}
         elif nm == "Heal":
